@@ -30,12 +30,25 @@ F19Sig == HasArg("--check") /\ ((HasArg("--rearrange") /\ T.max_errors >= 2) \/ 
 F23Sig == HasArg("--check") /\ HasArg("--reify-attributes") /\
           \E gi \in DOMAIN T.in_graphs : LET g == T.in_graphs[gi]  vs == {g.tr[i][1] : i \in DOMAIN g.tr} IN
              \E i \in DOMAIN g.tr : g.tr[i][2] # ConceptRole /\ g.tr[i][3] \notin vs /\ IsInverted(M, g.tr[i][2])
+\* F24: --canonicalize-roles with --reify-edges: an edge with a role r that is not reifiable, where the model normalises r-of to
+\* a reifiable role (AMR: :domain-of -> :mod); if the layout writes that edge inverted, the next run normalises and reifies it
+F24Sig == HasArg("--canonicalize-roles") /\ HasArg("--reify-edges") /\
+          \E gi \in DOMAIN T.in_graphs : LET g == T.in_graphs[gi]  vs == {g.tr[i][1] : i \in DOMAIN g.tr} IN
+             \E i \in DOMAIN g.tr : g.tr[i][2] # ConceptRole /\ g.tr[i][3] \in vs /\ ~Reifiable(M, g.tr[i][2])
+                                    /\ NormOf(M, g.tr[i][2] \o "-of") # g.tr[i][2] \o "-of" /\ Reifiable(M, NormOf(M, g.tr[i][2] \o "-of"))
 \* input graphs are well-formed and survive the pipeline conventions (no over-inverted roles etc.): decided per graph
 \* (a decoded edge that still carries an inverted role was written over-inverted, e.g. :consist-of-of under a model that does not
 \* define :consist-of: outside "well-formed", O12 - decided here on the decoded input graphs, whatever the generator intended)
 OverInverted(g) == LET vs == {g.tr[i][1] : i \in DOMAIN g.tr} IN
-                   \E i \in DOMAIN g.tr : g.tr[i][2] # ConceptRole /\ g.tr[i][3] \in vs /\ IsInverted(M, g.tr[i][2])
-InputOK == T.input_wellformed /\ \A gi \in DOMAIN T.in_graphs : ~OverInverted(T.in_graphs[gi])
+                   \E i \in DOMAIN g.tr : g.tr[i][2] # ConceptRole /\ IsInverted(M, g.tr[i][2])
+                                          /\ (g.tr[i][3] \in vs \/ IsInverted(M, InvertRole(M, g.tr[i][2])))
+Repeated(g) == \E i, j \in DOMAIN g.tr : i < j /\ g.tr[i] = g.tr[j]
+\* C10's proviso, which the relabelling stage inherits: no constant of the input is spelled like a name --make-variables generated
+Captured == HasArg("--make-variables") /\ Len(T.out_graphs) = Len(T.in_graphs) /\
+            \E gi \in DOMAIN T.in_graphs : LET g == T.in_graphs[gi]  vs == {g.tr[i][1] : i \in DOMAIN g.tr}
+                                                 nv == {T.out_graphs[gi].tr[i][1] : i \in DOMAIN T.out_graphs[gi].tr} IN
+               \E i \in DOMAIN g.tr : g.tr[i][2] # ConceptRole /\ g.tr[i][3] \notin vs /\ g.tr[i][3] \in nv
+InputOK == T.input_wellformed /\ \A gi \in DOMAIN T.in_graphs : ~OverInverted(T.in_graphs[gi]) /\ ~Repeated(T.in_graphs[gi])
 
 (* ---------------- kind = "cli" (C20) ---------------- *)
 CliV ==
@@ -44,15 +57,19 @@ CliV ==
     ELSE LET v == FirstFail(<<
             <<"exit-status-equals-pipeline", T.tool.exit = T.lib.exit>>,
             <<"one-output-graph-per-input-graph", T.plan.triples \/ Len(T.out_graphs) = Len(T.in_graphs)>>,
-            <<"bytes-equal-library-pipeline", T.plan.random \/ T.tool.out = T.lib.out>>,
+            \* (with --check the tool adds error-N metadata, which is no stage of the documented pipeline: the texts are compared
+            \*  without those lines, and the offending triples they name per graph as sets - C16 fixes what must be recorded)
+            <<"bytes-equal-library-pipeline", T.plan.random \/ (IF T.plan.check THEN T.tool.noerr = T.lib.noerr ELSE T.tool.out = T.lib.out)>>,
+            <<"check-records-the-same-offending-triples", T.plan.random \/ ~T.plan.check \/ T.tool.errctx = T.lib.errctx>>,
             <<"formatting-options-never-change-content", T.plan.random \/ T.plan.triples \/ T.out_graphs = T.base_graphs>>,
             <<"no-normalisation-preserves-graphs", (T.plan.plain /\ InputOK) => T.out_graphs = T.in_graphs>> >>, 1)
          IN IF v # Acc THEN v
             \* the fixed-point clause speaks about one input stream (outputs of several inputs are not separated by a blank line, O7)
-            ELSE IF T.plan.idempotent /\ ~T.plan.triples /\ InputOK /\ T.ninputs = 1 /\ T.tool2.out # T.tool.out
+            ELSE IF T.plan.idempotent /\ ~T.plan.triples /\ InputOK /\ ~Captured /\ T.ninputs = 1 /\ T.tool2.out # T.tool.out
                  THEN (IF F17Sig THEN <<"KNOWN", "F17 reify-edges + reify-attributes on an inverted attribute">>
                        ELSE IF F19Sig THEN <<"KNOWN", "F19 error-N metadata describe the graph before rearrange / make-variables">>
                        ELSE IF F23Sig THEN <<"KNOWN", "F23 check + reify-attributes on an inverted attribute">>
+                       ELSE IF F24Sig THEN <<"KNOWN", "F24 canonicalize-roles + reify-edges on an edge whose inverted role normalises to a reifiable one">>
                        ELSE <<"REJECT", "output-is-a-fixed-point">>)
             ELSE Acc
 
